@@ -1,8 +1,75 @@
-"""Unit `lb_fairness` — lemma-only unit: the C20 fairness corollary over the contract of
-`round_robin::cycle::State::next` (which Kani proves on the real code)."""
-from vx.extract import Unit
+"""Unit `lb_fairness` — the load-balancing stubs of tarpc/src/client/stub/load_balance.rs under contract for EVERY
+number of backends (the Kani harnesses k5_* enumerate 1..=4 / 1..=3): `cycle::State::next`, `AtomicCycle::next`,
+`RoundRobin::call`, `ConsistentHash::call`; plus the C20 fairness corollary as a lemma over the contract of `next`."""
+import re
+from vx.extract import Fn, Impl, Raw, Rule, TypeItem, Unit
+
+SRC = 'tarpc/src/client/stub/load_balance.rs'
+LX = 'Tracked(lx): Tracked<&mut HLog<Req, Resp>>'
+
+CALL_RULES = [
+    Rule('R5:assoc-resp', r'Stub::Resp', 'Resp', where='sig', why='associated type of the backing stub written as a type parameter'),
+    Rule('R5:assoc-req', r'Self::Req', 'Req', where='sig', why='associated type of the impl (type Req = Stub::Req)'),
+    Rule('R6:lx', r'next\.call\(ctx, request\)', 'next.call(ctx, request, Tracked(lx))', 1, where='body', why='ghost log of the calls on the backing stubs'),
+]
 
 
 def unit():
-    return Unit('lb_fairness', prelude=[], parts=[], lemmas=['round_robin_fair.rs'],
-                header='use vstd::arithmetic::div_mod::*;\n')
+    return Unit('lb_fairness', prelude=['atomic_counter.rs', 'lb_models.rs'], lemmas=['round_robin_fair.rs'], fx_type='CFx',
+                header='use vstd::arithmetic::div_mod::*;\n',
+                fx_prims=[r'self\.next\.fetch_add\('], fx_fns=[r'self\.0\.next\(', r'self\.stubs\.next\('],
+                rules=[Rule('R5:fetch-add', r'fetch_add\(1, Ordering::Relaxed\)', 'fetch_add(1)', why='prelude model of the atomic counter (the ordering argument only concerns other memory)')],
+                parts=[
+        TypeItem(SRC, 'struct', 'State'),
+        TypeItem(SRC, 'struct', 'AtomicCycle'),
+        TypeItem(SRC, 'struct', 'RoundRobin', attrs='#[verifier::reject_recursive_types(Req)] #[verifier::reject_recursive_types(Resp)]', rules=[
+            Rule('R5:rr-generics', r'pub struct RoundRobin<Stub>', 'pub struct RoundRobin<Req, Resp>', 1, why='the backing stub type is instantiated with the opaque model'),
+            Rule('R5:rr-stubs', r'AtomicCycle<Stub>', 'AtomicCycle<HStub<Req, Resp>>', 1, why='see R5:rr-generics'),
+        ]),
+        TypeItem(SRC, 'struct', 'ConsistentHash', attrs='#[verifier::reject_recursive_types(Req)] #[verifier::reject_recursive_types(Resp)]', rules=[
+            Rule('R5:ch-generics', r'pub struct ConsistentHash<Stub, S = RandomState>', 'pub struct ConsistentHash<Req, Resp>', 1, why='the backing stub type and the BuildHasher are instantiated with opaque models'),
+            Rule('R5:ch-stubs', r'stubs: Vec<Stub>,', 'stubs: Vec<HStub<Req, Resp>>,', 1, why='see R5:ch-generics'),
+            Rule('R5:ch-hasher', r'hasher: S,', 'hasher: HasherS,', 1, why='see R5:ch-generics'),
+        ]),
+        Impl('impl<T> State<T>', qual='cycle::State', parts=[
+            Fn(SRC, r'impl<T> State<T>', 'next', fx=True, tags='C20,C16',
+               requires='self.elements@.len() > 0, // @core',
+               ensures='''
+                 // C20: the call that draws counter value c goes to backend c % n, for every n; every call advances the shared counter by exactly one
+                 *r == self.elements@[(old(fx).value as int) % (self.elements@.len() as int)], // @C20
+                 final(fx).value == (if old(fx).value == usize::MAX { 0usize } else { (old(fx).value + 1) as usize }), // @C20
+               '''),
+        ]),
+        Impl('impl<T> AtomicCycle<T>', qual='cycle::AtomicCycle', parts=[
+            Fn(SRC, r'impl<T> AtomicCycle<T>', 'next', fx=True, tags='C20,C16',
+               requires='self.0.elements@.len() > 0, // @core',
+               ensures='''
+                 *r == self.0.elements@[(old(fx).value as int) % (self.0.elements@.len() as int)], // @C20
+                 final(fx).value == (if old(fx).value == usize::MAX { 0usize } else { (old(fx).value + 1) as usize }), // @C20
+               '''),
+        ]),
+        Impl('impl<Req, Resp> RoundRobin<Req, Resp>', qual='RoundRobin', parts=[
+            Fn(SRC, r'impl<Stub> stub::Stub for RoundRobin<Stub> where Stub: stub::Stub,', 'call', fx=True, tags='C20', extra_params=LX, rules=CALL_RULES,
+               requires='self.stubs.0.elements@.len() > 0, // @core',
+               ensures='''
+                 // C20: exactly one call, on the backend the shared cursor selects, with the caller's context and request; its answer is passed through
+                 final(lx).log == old(lx).log.push(HCall { stub: self.stubs.0.elements@[(old(fx).value as int) % (self.stubs.0.elements@.len() as int)].id(), ctx, request, result: r }), // @C20,C07,C18
+                 final(fx).value == (if old(fx).value == usize::MAX { 0usize } else { (old(fx).value + 1) as usize }), // @C20
+               '''),
+        ]),
+        Impl('impl<Req, Resp> ConsistentHash<Req, Resp>', qual='ConsistentHash', parts=[
+            Fn(SRC, r'impl<Stub, S> stub::Stub for ConsistentHash<Stub, S> where .*', 'call', tags='C20,C16', extra_params=LX,
+               rules=CALL_RULES + [
+                   Rule('R5:hash-request', r'self\.hash_request\(&request\)', 'hash_request_model(&self.hasher, &request)', 1, where='body',
+                        why='hash_request (BuildHasher::build_hasher, Hash::hash, Hasher::finish: trait-generic std calls) is modelled as a function of hasher and request (A-hash)'),
+                   Rule('R5:try-from-expect', r'usize::try_from\(([^;]*?)\)\.expect\(\s*"(?:[^"\\]|\\.)*",?\s*\)', r'usize_try_from_expect(\1)', 1, where='body', flags=re.M | re.S,
+                        why='`usize::try_from(x).expect(..)` as a call with the precondition that x fits (panic freedom obligation)'),
+               ],
+               hints=[('let index = usize_try_from_expect(', 'proof { lemma_mod_bound(hash_of(&self.hasher, &request) as int, self.stubs_len as int); assert(self.stubs.len() == self.stubs@.len()); }', 'before')],
+               requires='self.stubs_len == self.stubs@.len() && self.stubs@.len() > 0, // @core (established by new / with_hasher for a non-empty list)',
+               ensures='''
+                 // C20: exactly one call, on the backend hash(request) % n -- a function of the request and the hasher only -- with the caller's context and request; its answer is passed through
+                 final(lx).log == old(lx).log.push(HCall { stub: self.stubs@[(hash_of(&self.hasher, &request) as int) % (self.stubs@.len() as int)].id(), ctx, request, result: r }), // @C20,C07,C18
+               '''),
+        ]),
+    ])
